@@ -20,11 +20,11 @@ Float tolerance: a finite non-integer float v (|v| < 1e6 by construction) must c
 |a - v| <= 0.5e-5 (+ 1e-9 relative slack for the tie cases, where round-half-even on v*1e5 and on the decimal
 expansion legitimately differ) and a*1e5 within 4 ulp of an integer (i.e. a has at most 5 decimals).
 """
-import os, math, shutil, tempfile, itertools
+import os, math, zlib, shutil, hashlib, tempfile, itertools
 from hypothesis import strategies as st
 
 from vlib.core import Sub
-from vlib.util import Violation, require, use_repo
+from vlib.util import Violation, Inconclusive, require, use_repo
 use_repo()
 from coba.context import CobaContext, NullLogger
 from coba.pipes import ListSink
@@ -43,7 +43,9 @@ RULE = ("cases = (1-2 environment / learner / evaluator doubles with generated p
         "non-string names with ragged key sets, values = None/bool/int/float (NaN, inf, ties at the 5th decimal, "
         "integer-valued, many decimals)/str (unicode, newlines, quotes, NUL, lone surrogates)/nested list-tuple-dict/reward objects, "
         "sink kind none/plain/.gz, restored second run or not, optional description); sub-check 'shapes' enumerates "
-        "completely all columns of 1..3 rows over 10 value shapes. Non-trivial = some triple has ragged key sets or a "
+        "completely all columns of 1..3 rows over 10 value shapes; 'bigfile' enumerates single records above and exactly at 2**20 characters "
+        "(many rows, long cells, long params value; plain/.gz; fresh/restored); 'gzalign' enumerates restored runs on complete .gz files whose "
+        "description is padded until a chosen non-final gzip member ends on a multiple of 4096 bytes (rows stamped with the run that produced them). Non-trivial = some triple has ragged key sets or a "
         "nested / non-finite / non-ASCII-or-control-character value; distinct = distinct canonical JSON of the case")
 ASSUMPTIONS = [
     "field names of one evaluator output, and the keys of one params dictionary, are pairwise distinct under == and under str() (1 vs '1' vs 1.0 vs True in one output is not generated: the statement does not say which wins)",
@@ -80,13 +82,13 @@ def materialise(v):
 def is_rwd(v):
     return isinstance(v, dict) and len(v) == 1 and "$rwd" in v
 
-def build(case):
+def build(case, stamp=None):
     envs = [C07Env(i, materialise(p)) for i, p in enumerate(case["envs"])]
     lrns = [C07Learner(i, materialise(p)) for i, p in enumerate(case["lrns"])]
     by_val = {}
     for (e, l, v), rows in zip(case["triples"], case["rows"]):
         by_val.setdefault(v, {})[(e, l)] = [materialise(r) for r in rows]
-    vals = [C07Evaluator(i, materialise(p), by_val.get(i, {})) for i, p in enumerate(case["vals"])]
+    vals = [C07Evaluator(i, materialise(p), by_val.get(i, {}), stamp if case.get("stamp") else None) for i, p in enumerate(case["vals"])]
     descr = case.get("description")
     if case["form"] == "product":
         return Experiment(envs, lrns, vals, descr)
@@ -98,11 +100,11 @@ def ascii_text(x):
     """text of an exception / log line made printable (generated strings may hold lone surrogates)"""
     return str(x).encode("ascii", "backslashreplace").decode("ascii")
 
-def do_run(case, path, logs, what):
+def do_run(case, path, logs, what, stamp=1):
     sink = ListSink()
     CobaContext.search_paths = []
     CobaContext.logger = NullLogger(sink)
-    exp = build(case)
+    exp = build(case, stamp)
     try:
         return exp.run(path, quiet=True, processes=1, maxchunksperchild=0, maxtasksperchunk=0)
     except Exception as e:
@@ -128,6 +130,7 @@ def build_model(case):
         if rows and all(len(r) == 0 for r in rows): empties.add(tid)
         for n, row in enumerate(rows, 1):
             inter[tid + (n,)] = {str(k): v for k, v in row.items()}
+            if case.get("stamp"): inter[tid + (n,)]["run"] = 1   # every recorded row was produced by the first run
     def ptable(idmap, plist, name_key, default):
         out = {}
         for i, cid in idmap.items():
@@ -269,6 +272,8 @@ def same_results(what, a, b, logs):
     require(d is None, f"{what} differ at {d}", logs=logs[:2])
 
 def run(case):
+    case = expand(case)
+    if "align" in case: case = with_aligned_description(case)
     model = build_model(case)
     logs = []
     r_mem = do_run(case, None, logs, "no file")
@@ -284,16 +289,98 @@ def run(case):
             r_load = Result.from_file(path)
         except Exception as e:
             raise Violation(f"Result.from_file raised {type(e).__name__}: {ascii_text(e)}") from e
+        if "exact_len" in case:
+            import gzip
+            with (gzip.open(path, "rb") if case["sink"] == "gz" else open(path, "rb")) as f:
+                longest = max(len(line.rstrip(b"\n")) for line in f)
+            if longest != case["exact_len"]: raise Inconclusive(f"longest record has {longest} characters, wanted {case['exact_len']}")
+        if "align" in case:
+            ends = member_ends(path)
+            j = case["align"]["member"] % (len(ends) - 1)
+            if ends[j] % 4096 != 0: raise Inconclusive(f"member {j} ends at {ends[j]}, not on a 4 KiB boundary")
         d_mem, d_file, d_load = dump(r_mem), dump(r_file), dump(r_load)
         same_results("Result(no file) and Result(file)", d_mem, d_file, logs)
         same_results("Result(file) and Result.from_file(file)", d_file, d_load, logs)
         if case["restore"]:
-            r_rest = do_run(case, path, logs, "restored")
+            r_rest = do_run(case, path, logs, "restored", stamp=2)
             check_model("restored", r_rest, model, logs)
             same_results("fresh run and restored run", d_file, dump(r_rest), logs)
             same_results("Result.from_file before and after the restored run", d_load, dump(Result.from_file(path)), logs)
     finally:
         shutil.rmtree(tmp, ignore_errors=True)
+
+# ------------------------------------------------------------------------------------------------ large records, aligned gzip members
+def expand(case):
+    """cases of the 'bigfile' sub-check describe their rows/params compactly; build them here"""
+    big = case.get("big")
+    if not big: return case
+    case = dict(case)
+    if big["kind"] == "many-rows":
+        case["rows"] = [[{"reward": (i % 977) / 977, "action": i % 7, "note": f"row-{i}"} for i in range(big["n"])]]
+    elif big["kind"] == "long-cells":
+        cell = big["char"] * big["len"]
+        case["rows"] = [[{"a": i, "text": cell + str(i), "b": [i, cell[:3]]} for i in range(big["n"])]]
+    elif big["kind"] == "long-param":
+        case["envs"] = [{"blob": big["char"] * big["len"], "k": 1}]
+        case["rows"] = [[{"a": 1, "b": (1, 2)}, {"a": 2}]]
+    elif big["kind"] == "exact":
+        # one ASCII cell sized so that the packed record (without its line feed) has exactly big["chars"] characters
+        probe = dict(case, big=None, rows=[[{"a": 1, "text": ""}, {"a": 2, "text": "t"}]], sink="plain", restore=False)
+        tmp = tempfile.mkdtemp(prefix="c07-", dir=TMP_ROOT)
+        try:
+            path = os.path.join(tmp, "probe.log")
+            do_run(probe, path, [], "probe")
+            with open(path, encoding="utf-8") as f:
+                base = max(len(line.rstrip("\n")) for line in f if line.startswith('["I"'))
+        finally:
+            shutil.rmtree(tmp, ignore_errors=True)
+        case["rows"] = [[{"a": 1, "text": "x" * (big["chars"] - base)}, {"a": 2, "text": "t"}]]
+        case["exact_len"] = big["chars"]
+    else:
+        raise ValueError(big["kind"])
+    return case
+
+def member_ends(path):
+    """offsets at which the gzip members of a file end"""
+    with open(path, "rb") as f: data = f.read()
+    ends, pos = [], 0
+    while pos < len(data):
+        d = zlib.decompressobj(wbits=31)
+        d.decompress(data[pos:])
+        if not d.eof: raise Inconclusive("result file holds an incomplete gzip member")
+        pos = len(data) - len(d.unused_data)
+        ends.append(pos)
+    return ends
+
+def pad_text(salt, n):
+    """deterministic, poorly compressible alphanumeric text"""
+    out, i = [], 0
+    while sum(map(len, out)) < n:
+        out.append(hashlib.sha256(f"{salt}:{i}".encode()).hexdigest()); i += 1
+    return "".join(out)[:n]
+
+def with_aligned_description(case):
+    """find a description length for which gzip member `member` of the fresh .gz file ends on a multiple of 4096"""
+    want = case["align"]
+    tmp = tempfile.mkdtemp(prefix="c07-", dir=TMP_ROOT)
+    try:
+        path = os.path.join(tmp, "result.log.gz")   # same base name as the real file: gzip stores it in every member header
+        n, target, seen = want.get("start", 3000), None, set()
+        for _ in range(60):
+            if n in seen or not (0 < n < 60000): break
+            seen.add(n)
+            if os.path.exists(path): os.remove(path)
+            trial = dict(case, description=pad_text(want["salt"], n))
+            do_run(trial, path, [], "trial")
+            ends = member_ends(path)
+            j = want["member"] % (len(ends) - 1)     # never the last member
+            if target is None: target = (ends[j] // 4096 + want.get("blocks", 1)) * 4096
+            diff = target - ends[j]
+            if diff == 0: return trial
+            n += diff if abs(diff) < 3 else int(diff * 1.9)   # hex digits deflate to a bit more than half a byte each
+    finally:
+        shutil.rmtree(tmp, ignore_errors=True)
+    raise Inconclusive("no description length aligns the member")
 
 # ------------------------------------------------------------------------------------------------ strategies
 NASTY = ["", " ", "\u00e9", "\u65e5\u672c\u8a9e", "a\nb", "\r\n", 'q"q', "it's", "\\", "\\n", "\t", "\u2028", "\x00", "NaN", "null",
@@ -371,6 +458,9 @@ def cases(draw, tier, with_file):
         "restore": draw(st.booleans()) if with_file else False,
         "description": draw(st.one_of(st.none(), strings)),
     }
+    # half of the restored cases mark every row with the run that produced it: a completed triple that is evaluated
+    # again by the restored run then shows up as different rows
+    if case["restore"] and draw(st.booleans()): case["stamp"] = True
     return case
 
 def mem_cases(tier): return cases(tier, False)
@@ -393,6 +483,46 @@ def shapes(tier):
                     rows.append(row)
                 yield {"envs": [{}], "lrns": [{}], "vals": [{}], "form": "product", "triples": [[0, 0, 0]], "rows": [rows],
                        "sink": "none", "restore": False, "description": None, "shapes": list(combo)}
+
+BASE = {"envs": [{}], "lrns": [{}], "vals": [{}], "form": "product", "triples": [[0, 0, 0]], "rows": [[]], "sink": "plain",
+        "restore": False, "description": None}
+
+def bigfile(tier):
+    """one record (line) of the result file longer than 1 MiB, and records right at that size"""
+    M = 2 ** 20
+    def c(big, sink, restore): return dict(BASE, big=big, sink=sink, restore=restore, stamp=restore)
+    yield c({"kind": "long-cells", "n": 3, "len": 400000, "char": "x"}, "plain", True)
+    yield c({"kind": "long-cells", "n": 3, "len": 70000, "char": "\u00e9"}, "gz", True)      # 6 characters each once escaped
+    yield c({"kind": "many-rows", "n": 60000}, "gz", False)
+    yield c({"kind": "long-param", "len": M + 1000, "char": "p"}, "plain", True)
+    yield c({"kind": "exact", "chars": M - 1}, "plain", False)
+    yield c({"kind": "exact", "chars": M}, "plain", True)
+    yield c({"kind": "exact", "chars": M + 1}, "gz", True)
+    if tier == "thorough":
+        for sink in ("plain", "gz"):
+            for restore in (False, True):
+                for chars in (M - 2, M - 1, M, M + 1, M + 2, 2 * M - 1, 2 * M, 2 * M + 1, 3 * M + 5):
+                    yield c({"kind": "exact", "chars": chars}, sink, restore)
+                for n, ln, ch in ((1, M + 10, "y"), (2, 600000, "z"), (5, 250000, "\u65e5"), (4, 300000, "\n"), (3, 200000, "\ud83d")):
+                    yield c({"kind": "long-cells", "n": n, "len": ln, "char": ch}, sink, restore)
+                yield c({"kind": "long-param", "len": 2 * M + 7, "char": "\u00e9"}, sink, restore)
+                yield c({"kind": "many-rows", "n": 70000}, sink, restore)
+                yield c({"kind": "many-rows", "n": 150000}, sink, restore)
+
+def gzalign(tier):
+    """restored runs on a complete .gz file in which a gzip member other than the last ends on a multiple of 4096 bytes"""
+    shapes_ = [
+        dict(BASE, envs=[{"p": [1, 2]}], lrns=[{"q": 0.25}], rows=[[{"a": 1, "b": [1, 2]}, {"a": 2}]]),
+        dict(BASE, envs=[{"p": 1}, {"p": "two"}], lrns=[{}, {"family": "L"}], triples=[[0, 0, 0], [0, 1, 0], [1, 0, 0], [1, 1, 0]],
+             rows=[[{"a": 1}], [{"a": 2.5, "c": None}], [{"b": (1, 2)}, {"b": "x"}], [{"a": float("inf")}]]),
+    ]
+    members = range(1, 7) if tier == "quick" else range(1, 12)
+    salts = (0, 1) if tier == "quick" else range(6)
+    for shape in shapes_:
+        for member in members:
+            for salt in salts:
+                for blocks in ((1,) if tier == "quick" else (1, 2, 3)):
+                    yield dict(shape, sink="gz", restore=True, stamp=True, align={"member": member, "salt": salt, "blocks": blocks})
 
 # ------------------------------------------------------------------------------------------------ evidence
 def _walk(v):
@@ -445,10 +575,16 @@ def features(case):
     return f
 
 def nontrivial(case):
+    if "big" in case or "align" in case: return True
     return bool(features(case) & {"ragged", "nested", "dict-value", "non-finite", "odd-string", "odd-field-name", "non-str-field"})
 
 def classes(case):
+    if "big" in case:
+        return ["big:" + case["big"]["kind"], "sink=" + case["sink"]] + (["restored"] if case["restore"] else [])
+    if "align" in case:
+        return [f"aligned-member={case['align']['member']}", f"blocks={case['align'].get('blocks', 1)}", f"triples={len(case['triples'])}"]
     out = sorted(features(case))
+    if case.get("stamp"): out.append("stamped")
     out.append("sink=" + case["sink"])
     if case["restore"]: out.append("restored")
     out.append("form=" + case["form"])
@@ -476,4 +612,8 @@ SUBCHECKS = [
         what="plain/.gz result file, fresh and restored: tables vs model, Result(no file) == Result(file) == Result.from_file == restored run"),
     Sub(name="shapes", run=run, enumerate=shapes, nontrivial=nontrivial, classes=classes, classify=classify, sample_view=sample_view, exhaustive=True, quick_shards=1,
         what="complete enumeration: one column ('a' and 'rewards') over all sequences of 1..3 rows drawn from 10 value shapes (absent, None, int, float, str, list, tuple, empty list, dict, nested list)"),
+    Sub(name="bigfile", run=run, enumerate=bigfile, nontrivial=nontrivial, classes=classes, classify=classify, quick_shards=1, thorough_shards=8,
+        what="a single record of the result file longer than 1 MiB (many rows, very long cells, a very long params value) and records of exactly 2**20-1 / 2**20 / 2**20+1 characters, plain and .gz, fresh and restored: model + three-route oracle"),
+    Sub(name="gzalign", run=run, enumerate=gzalign, nontrivial=nontrivial, classes=classes, classify=classify, quick_shards=1, thorough_shards=4,
+        what="restored run on a complete .gz file whose description is padded until a chosen non-final gzip member ends on a multiple of 4096 bytes; rows carry the number of the run that produced them, so a completed triple that is dropped and evaluated again changes the table (cases where no padding aligns the member are inconclusive)"),
 ]
